@@ -421,10 +421,15 @@ pub fn digest_error(e: lexpr::parse::Error, seen: &Seen<'_>, fired: &[Fired], mo
     };
     let loc = e.location().map(|l| (l.line(), l.column()));
     let full = e.to_string();
+    // The error "kind" is its Display text without the location. How the location
+    // is rendered is not ours to assume: today's suffix is stripped when present,
+    // and in any case digits are dropped from located errors, so that two readers
+    // reporting different positions for the same error still compare equal.
     let msg = match loc {
         Some((l, c)) => {
             let suffix = format!(" at line {} column {}", l, c);
-            full.strip_suffix(suffix.as_str()).unwrap_or(&full).to_string()
+            let m = full.strip_suffix(suffix.as_str()).unwrap_or(&full);
+            m.chars().filter(|ch| !ch.is_ascii_digit()).collect::<String>()
         }
         None => full.clone(),
     };
